@@ -133,7 +133,7 @@ def formatter_specs(tier, v):
 
 
 PSTATES = [
-    "none", "fix", "fixval", "fix2", "lim", "limbite", "limlow", "unlimbite", "fixrel",
+    "none", "fix", "fixval", "fix2", "lim", "limbite", "limlow", "unlimbite", "fixrel", "fixset", "fixsetall",
     "con-simple", "con-simple-rel", "con-matrix-cov", "con-matrix-cor", "con-matrix-cov-rel", "con-simple+con-matrix-cor",
     "fix+lim+con-simple-rel",
 ]  # fmt: skip
